@@ -282,7 +282,7 @@ namespace internal
 		}
 
 	private:
-		void pvMove() noexcept
+		void pvMove()
 		{
 			if (mValueIterator != mKeyIterator->GetEnd())
 				return;
